@@ -42,6 +42,14 @@ type run struct {
 	EdgeInvs   []edgeInv
 	// Terminal, when set, is evaluated on every state without outgoing transition ("" = fine).
 	Terminal func(*ss.State) (string, string)
+	// Seed, when set, is a scripted real execution from the initial state; the search starts at
+	// its end (paths reported/replayed are prefix+suffix from the true initial state).
+	Seed func() []ss.SeedStep
+	// First: instances that reproduce a recorded finding run before all others, so that the finding
+	// shows on every run whatever the machine leaves of the budget.
+	First bool
+	// ConfCap overrides the number of leaf paths replayed live (large systems with long prefixes).
+	ConfCap int
 }
 
 func runs() []*run {
@@ -111,6 +119,29 @@ func runs() []*run {
 		out = append(out, &run{Name: fmt.Sprintf("shopcart-N%d-R%d", cfg.NumNodes, cfg.BenchNumRounds), System: "shopcart", Quick: c.quick, Cfg: cfg,
 			New: func() *ss.System { return shopcart.New(cfg) }, Invs: []stateInv{cfg.QueryOK, cfg.StrongConvergence}})
 	}
+	// the spec's other instantiation (ANode: add and remove commands from `in`); equal knowledge =
+	// equal set of commands received directly or through merges (c).  Known finding on >= 3 nodes.
+	addRemove := []shopcart.Op{{Elem: "1"}, {Remove: true, Elem: "1"}}
+	for _, c := range []struct {
+		cfg   shopcart.Config
+		name  string
+		quick bool
+	}{{shopcart.Config{NumNodes: 2, NodeOps: addRemove}, "add-remove", true}, {shopcart.Config{NumNodes: 3, NodeOps: addRemove}, "add-remove", true},
+		{shopcart.Config{NumNodes: 2, NodeOps: shopcart.SpecOps}, "spec-in", true}, {shopcart.Config{NumNodes: 3, NodeOps: shopcart.SpecOps}, "spec-in", false},
+		{shopcart.Config{NumNodes: 4, NodeOps: addRemove}, "add-remove", false},
+		{shopcart.Config{NumNodes: 3, NodeOps: []shopcart.Op{{Elem: "1"}, {Elem: "1"}, {Remove: true, Elem: "1"}, {Remove: true, Elem: "1"}}}, "add-add-remove-remove", false}} {
+		cfg := c.cfg
+		out = append(out, &run{Name: fmt.Sprintf("shopcart-ANode-N%d-%s", cfg.NumNodes, c.name), System: "shopcart", Quick: c.quick, Cfg: cfg,
+			New: func() *ss.System { return shopcart.New(cfg) }, Invs: []stateInv{cfg.QueryOK, cfg.EqualKnowledgeEqualReads}, First: cfg.NumNodes == 3 && c.name == "add-remove"})
+	}
+	// "every instance size": NUM_SERVERS = FAIL = 100.  Plain BFS cannot get past the 2^99 crash
+	// orders, so the search starts after a scripted crash history (servers 1..99 crashed).
+	{
+		cfg := proxy.Config{NumServers: proxy.Fail, NumClients: 1, ExploreFail: true, ClientRun: true, PerfectFD: true}
+		out = append(out, &run{Name: "proxy-S100-C1-perfectFD-seeded-99-crashed", System: "proxy", Quick: true, Cfg: cfg,
+			New: func() *ss.System { return proxy.New(cfg) }, Seed: func() []ss.SeedStep { return cfg.SeedCrashAllBut(proxy.Fail) },
+			Invs: []stateInv{cfg.ProxyOK}, EdgeInvs: []edgeInv{cfg.FailOnlyWhenAllFailed}, ConfCap: 12, First: true})
+	}
 	for _, c := range []struct {
 		cfg   nestedcrdtimpl.Config
 		quick bool
@@ -131,6 +162,11 @@ type replay struct {
 func (r *run) system() *ss.System {
 	sys := r.New()
 	sys.Observe = r.Observe
+	if r.Seed != nil {
+		if err := sys.Seed(r.Seed()); err != nil {
+			panic(fmt.Sprintf("%s: seeding script does not apply: %v", r.Name, err))
+		}
+	}
 	return sys
 }
 
@@ -171,10 +207,19 @@ func intsOf(m ss.Move) []int {
 }
 
 func TestCheck(t *testing.T) {
+	if spec := os.Getenv("VERIF_CHILD"); strings.HasPrefix(spec, "rkv:") {
+		rkvChild(spec) // one scripted execution of the replicatedkv runtime family; exits
+	}
 	hres.Main(t, func(env hres.Env) *hres.Result {
 		res := &hres.Result{Property: "C16", Level: "model_checking"}
 		all := runs()
 		if env.Replay != nil {
+			var rr rkvReplay
+			if json.Unmarshal(env.Replay, &rr) == nil && rr.RKV {
+				res.Violations = rkvReplayOnce(rr)
+				res.Coverage = map[string]any{"states": 1, "transitions": 1, "traces_validated_against_impl": 1, "samples": []any{rr}}
+				return res
+			}
 			var rp replay
 			if err := json.Unmarshal(env.Replay, &rp); err != nil {
 				t.Fatal(err)
@@ -204,6 +249,15 @@ func TestCheck(t *testing.T) {
 			} else {
 				notRun = append(notRun, r.Name+" (thorough tier only)")
 			}
+		}
+		sort.SliceStable(sel, func(i, j int) bool { return sel[i].First && !sel[j].First })
+		// replicatedkv: scripted family on the real runtime (see rkv_runtime_test.go), first so that it
+		// never depends on what the searches leave of the budget
+		var rkvEvidence map[string]any
+		if only == "" || only == "replicatedkv" {
+			var v []hres.Viol
+			v, rkvEvidence = rkvCheck(env)
+			res.Violations = append(res.Violations, v...)
 		}
 		confCap := 500
 		if env.Thorough() {
@@ -245,7 +299,11 @@ func TestCheck(t *testing.T) {
 				if strings.HasPrefix(k, "error-edge/") {
 					k = r.System + "/" + k
 				}
-				add(k, v.What+" | "+strings.Join(v.Trace, " ; "), v.Path)
+				tr := v.Trace
+				if len(tr) > 14 {
+					tr = append([]string{fmt.Sprintf("... %d earlier steps (see the replay file) ...", len(tr)-14)}, tr[len(tr)-14:]...)
+				}
+				add(k, v.What+" | "+strings.Join(tr, " ; "), v.Path)
 			}
 			terminals := 0
 			if r.Terminal != nil && b.Exhaustive {
@@ -272,6 +330,10 @@ func TestCheck(t *testing.T) {
 			}
 			leaves := append([]int32{}, b.Leaves...)
 			sort.Slice(leaves, func(i, j int) bool { return leaves[i] < leaves[j] })
+			confCap := confCap
+			if r.ConfCap > 0 {
+				confCap = r.ConfCap
+			}
 			step := 1
 			if len(leaves) > confCap {
 				step = len(leaves)/confCap + 1 // spread the cap over the whole tree, deepest leaves included
@@ -308,10 +370,10 @@ func TestCheck(t *testing.T) {
 				samples = append(samples, map[string]any{"run": r.Name, "trace": sys.Render(b.PathTo(b.Leaves[len(b.Leaves)/2]))})
 			}
 		}
-		notCovered := append([]string{"replicatedkv (no instance wiring, test or model-checking configuration in the tree)"}, notRun...)
+		notCovered := append([]string{"replicatedkv: no E4 model (no instance wiring, test or model-checking configuration in the tree); only the scripted runtime family under coverage.replicatedkv_runtime"}, notRun...)
 		res.Coverage = map[string]any{
 			"states": states, "transitions": trans, "traces_validated_against_impl": validated, "samples": samples,
-			"per_system": perSystem, "runs": perRun, "not_covered": notCovered, "exhaustive": exhaustive, "conformance_paths_cap_per_run": confCap,
+			"per_system": perSystem, "runs": perRun, "replicatedkv_runtime": rkvEvidence, "not_covered": notCovered, "exhaustive": exhaustive, "conformance_paths_cap_per_run": confCap,
 			"explanation": "per instance: explicit-state BFS over the real generated critical sections (state injected into a fresh MPCalContext, one attempt per transition, every resolution of either/with and of the mapping macros' choices); error/assertion/panic edges are violations; state and edge invariants of the property ported from each spec; BFS-tree leaf paths replayed on long-lived contexts and compared state by state",
 		}
 		res.Assumptions = []string{
